@@ -68,6 +68,37 @@ def leb(tier, seed):
         obs.append(dict(name='bounded:common/construct_utils.py:%s[1..20 groups]' % name, kind='bounded',
                         verdict='refuted' if bad else 'proved', backend='ground-eval(%d encodings)' % n, time=0.0, bounded=True,
                         detail=bad and '%s: %s, DWARF 7.6 gives %s' % (bad['input'], bad['observed'], bad['expected']), native=bad))
+    # fixed-width integers of both byte orders and signednesses through the primitive factories of both structs classes
+    from elftools.elf.structs import ELFStructs
+    bad, n = None, 0
+    for le in (True, False):
+        bo = 'little' if le else 'big'
+        ds = DWARFStructs(little_endian=le, dwarf_format=32, address_size=8)
+        es = ELFStructs(little_endian=le, elfclass=64)
+        es.create_basic_structs()
+        fields = [('Dwarf_uint8', ds.Dwarf_uint8, 1, False), ('Dwarf_uint16', ds.Dwarf_uint16, 2, False), ('Dwarf_uint32', ds.Dwarf_uint32, 4, False),
+                  ('Dwarf_uint64', ds.Dwarf_uint64, 8, False), ('Dwarf_int8', ds.Dwarf_int8, 1, True), ('Dwarf_int16', ds.Dwarf_int16, 2, True),
+                  ('Dwarf_int32', ds.Dwarf_int32, 4, True), ('Dwarf_int64', ds.Dwarf_int64, 8, True), ('Elf_byte', es.Elf_byte, 1, False),
+                  ('Elf_half', es.Elf_half, 2, False), ('Elf_word', es.Elf_word, 4, False), ('Elf_word64', es.Elf_word64, 8, False),
+                  ('Elf_sword', es.Elf_sword, 4, True), ('Elf_sxword', es.Elf_sxword, 8, True)]
+        for name, fac, width, signed in fields:
+            pats = [bytes([b]) * width for b in (0x00, 0x7f, 0x80, 0xff)] + [b'\x80' + b'\x00' * (width - 1), b'\x00' * (width - 1) + b'\x80',
+                                                                          b'\xff' + b'\x7f' * (width - 1)] + \
+                [bytes(rng.randrange(256) for _ in range(width)) for _ in range(20)]
+            for raw in pats:
+                n += 1
+                s_ = io.BytesIO(raw + b'\xaa\xbb')
+                try:
+                    got = (fac('v').parse_stream(s_), s_.tell())
+                except Exception as e:
+                    got = 'raised %r' % (e,)
+                want = (int.from_bytes(raw, bo, signed=signed), width)
+                if got != want and bad is None:
+                    bad = dict(confirmed=True, how='%s (%s-endian) parse_stream' % (name, bo), input=raw.hex(), observed=repr(got),
+                               expected='(value, bytes consumed) = %r' % (want,))
+    obs.append(dict(name='bounded:structs:fixed-width integers', kind='bounded', verdict='refuted' if bad else 'proved',
+                    backend='ground-eval(%d encodings)' % n, time=0.0, bounded=True,
+                    detail=bad and '%s %s: %s, expected %s' % (bad['how'], bad['input'], bad['observed'], bad['expected']), native=bad))
     return dict(obligations=obs, assumptions=['BOUNDED: encodings of 1..20 groups (boundary shapes and seeded samples), not all byte strings'],
                 functions=[dict(function='elftools/common/construct_utils.py:ULEB128._parse, SLEB128._parse (end to end)',
                                 kind='bounded differential')], exhaustive=False)
